@@ -100,6 +100,22 @@ def run(ctx):
     for _ in range(400 if quick else 6000):
         pth = jp_soup()
         cases.append(("jsonpath-soup", rng.choice(['redact("%s")', 'redact("%s") and a', 'redact("c", "%s", "k")']) % pth, rng.choice(shaped)))
+    # pumping: one lexical atom repeated a few dozen times behind each kind of opening (inside a literal that holds a macro
+    # name, behind an unterminated quote, outside literals): short texts on which anything polynomial answers at once and a
+    # backtracking matcher or parser with two ways to read the atom does not answer at all
+    pump_pre = ['a == "', 'a == "http ', '"http', 'http "', "a == 'http", 'a == r"http', 'a == "\\"http ', '"', '', 'a == "C:\\http']
+    pump_atoms = ['\\\\', '\\"', "\\'", '\\n', '\\', '"', "'", '""', 'a', ' ', '(', ')', '.', 'http ', '/*', '*/', '!', 'a.', '[0]', '-', 'r"',
+                  '\\\\\\"', '\\d', 'http', '"http"', "\\\\http"]
+    pump_suf = ['"', '', '" and b', "'", 'index.html"']
+    pumped = [pre + atom * n + suf for pre in pump_pre for atom in pump_atoms for suf in pump_suf for n in (40, 64)]
+    pumped = rng.sample(pumped, 900) if quick else pumped
+    # (each case that does not answer costs the harness its per-case time limit: when several of a first sample do not,
+    # the sample is reported and the rest is not run)
+    probe = pumped[::max(1, len(pumped) // 60)]
+    stuck = sum(1 for o in kfl.run_cases(ctx, "entry", [[q, '{"a":"x"}'] for q in probe], timeout=3000) if o.get("outcome") == "timeout")
+    for q in (probe if stuck >= 3 else pumped):
+        cases.append(("pumped-query", q, '{"a":"x"}'))
+    cases.append(("pumped-query", 'request.headers["X-Path"] == "C:\\\\http' + "\\\\d" * 30 + '\\\\index.html"', '{"a":"x"}'))
     depth = 100000          # beyond what the Go stack (1 GB) carries if the parser recursed that deep
     for i, form in enumerate(kfl.DEEP_FORMS):
         d = min(depth, 20000) if i == 6 else depth          # the long dotted path is quadratic in the parser
